@@ -2,6 +2,7 @@ import PybtexModel.Drv.Json
 import PybtexModel.Drv.C01
 import PybtexModel.Model.BibParse
 import PybtexModel.Spec.BibConfine
+import PybtexModel.Model.BibContext
 open Lean
 namespace Pybtex.Drv.C10
 open Pybtex.Bib Pybtex.Drv.C01
@@ -77,7 +78,86 @@ def c10case (j : Json) : Except String Json := do
            ("npre", nat S.db.entries.length), ("nbad", nat (S1.db.entries.length - S.db.entries.length))]
   pure (obj [("out", out), ("cover", cover)])
 
+/-- a rendering the model cannot produce (`RenderFail`: `get_error_context` would index out of range;
+unreachable, `C10_context_renderable`) or a model-only error kind -/
+def renderFailJ : Json := obj [("fail", Json.bool true)]
+
+/-- one located problem as the exception object shows itself: class / line / message (`errJ`),
+`error_context_info` (`start` = `command_start`, `pos`; `null` for the data errors, which have none),
+`str(e)`, `e.get_context()`, `format_error(e, prefix)` -/
+def locJ (fn : Option Str) (text pre : Str) (l : Located) : Json :=
+  obj [("err", errJ l.err),
+       ("start", if l.err.line.isSome then nat l.start else Json.null),
+       ("pos", if l.err.line.isSome then nat l.pos else Json.null),
+       ("str", match l.exc fn text with
+         | some x => strToJson x.str
+         | none => renderFailJ),
+       ("context", match l.context fn text with
+         | some (.ok (some c)) => strToJson c
+         | some (.ok none) => Json.null
+         | _ => renderFailJ),
+       ("format", match l.render fn text pre with
+         | some (.ok t) => strToJson t
+         | _ => renderFailJ)]
+
+/-- `c10render`: the reader with `command_start` (`parseBibCS`) on `text` in continue and in strict
+mode.  `capture.located`: every reported problem with its `error_context_info` and its rendering as
+a warning; `capture.stderr`: what non-strict mode prints (`print_error(e, 'WARNING: ')` per problem);
+`strict.raised`: the error strict mode raises, rendered as `ERROR: `; `agree`: the final result of
+`parseBibCS` is the one of `parseBib` (`C10_context_refines`, evaluated on the observable part). -/
+def c10render (j : Json) : Except String Json := do
+  let text ← getStr j "text"
+  let wanted ← match j.getObjVal? "wanted" with
+    | .ok (Json.arr a) => do
+      let l ← a.toList.mapM jsonToStr
+      pure (some l)
+    | _ => pure none
+  let fn ← match j.getObjVal? "filename" with
+    | .ok (Json.str _) => do
+      let f ← getStr j "filename"
+      pure (some f)
+    | _ => pure none
+  let c := parseBibCS text false wanted
+  let s := parseBibCS text true wanted
+  let warn (l : Located) : Str := match l.render fn text Errors.warningPrefix with
+    | some (.ok t) => t ++ ['\n']
+    | _ => "<RENDERFAIL>".toList
+  let agree := resultPosJ text c.1 == resultPosJ text (parseBib text false wanted) &&
+               resultPosJ text s.1 == resultPosJ text (parseBib text true wanted)
+  pure (obj [("out", obj [
+    ("capture", obj [("located", arr (c.2.1.map (locJ fn text Errors.warningPrefix))),
+                     ("stderr", strToJson (c.2.1.flatMap warn)),
+                     ("raised", optJ (locJ fn text Errors.errorPrefix) c.2.2)]),
+    ("strict", obj [("raised", optJ (locJ fn text Errors.errorPrefix) s.2.2)])]),
+    ("agree", Json.bool agree)])
+
+def lowCmdJ (c : LowCmd) : Json :=
+  let parts (l : List Str) : Json := strs l
+  match c.cmd with
+  | .string => obj [("kind", Json.str "string"), ("name", optJ strToJson c.fieldName), ("value", parts c.value)]
+  | .preamble v => obj [("kind", Json.str "preamble"), ("value", parts v)]
+  | .entry t k fs => obj [("kind", Json.str "entry"), ("command", strToJson t), ("key", optJ strToJson k),
+                           ("fields", arr (fs.map fun f => arr [strToJson f.1, parts f.2]))]
+
+/-- `c10lowlevel`: `LowLevelParser` used directly — the commands the iterator yields (raw value parts),
+the problems handed to `handle_error` with their positions, the error that ends the iteration, and
+the scanner position / line at the end; `strict` = the default `handle_error` (raise). -/
+def c10lowlevel (j : Json) : Except String Json := do
+  let text ← getStr j "text"
+  let strict ← getBool j "strict"
+  let wanted ← match j.getObjVal? "wanted" with
+    | .ok (Json.arr a) => do
+      let l ← a.toList.mapM jsonToStr
+      pure (some l)
+    | _ => pure none
+  let r := lowLevelRun text strict wanted
+  pure (obj [("out", obj [("commands", arr (r.2.map lowCmdJ)),
+    ("errors", arr (r.1.1.errs.map errJ)),
+    ("errpos", arr ((r.1.1.errs.zip r.1.1.errAt).map fun p => posJ text p.1 p.2)),
+    ("raised", optJ errJ r.1.2),
+    ("pos", nat (text.length - r.1.1.rest.length)), ("lineno", nat r.1.1.ln)])])
+
 /-- driver ops of this property: (op name, handler) -/
-def handlers : List (String × (Json → Except String Json)) := [("c10case", c10case)]
+def handlers : List (String × (Json → Except String Json)) := [("c10case", c10case), ("c10render", c10render), ("c10lowlevel", c10lowlevel)]
 
 end Pybtex.Drv.C10
